@@ -298,6 +298,23 @@ func registerIntrinsics(e *Engine) {
 	// ---- math ----
 	in["math.Float64bits"] = func(fr *frame, args []value) value { return fbits(fr, args[0].(*Term)) }
 	in["math.Float32bits"] = in["math.Float64bits"]
+	// msgpack's unsafe string<->[]byte casts
+	in["github.com/vmihailenco/msgpack/v5.stringToBytes"] = func(fr *frame, args []value) value {
+		bs := strBytes(args[0])
+		out := make([]value, len(bs))
+		for i, b := range bs {
+			out[i] = b
+		}
+		return out
+	}
+	in["github.com/vmihailenco/msgpack/v5.bytesToString"] = func(fr *frame, args []value) value {
+		b := args[0].([]value)
+		ts := make([]*Term, len(b))
+		for i, x := range b {
+			ts[i] = x.(*Term)
+		}
+		return mkStr(ts)
+	}
 	in["math.Float64frombits"] = func(fr *frame, args []value) value { return fr.run().st.FFromBits(args[0].(*Term)) }
 	in["math.Float32frombits"] = in["math.Float64frombits"]
 	math1 := func(f func(float64) float64) intrinsicFn {
